@@ -37,6 +37,7 @@ func barrier(n int) (wait func(), release func()) {
 
 func concEngine(rng *Rng, n int, out *Out, args map[string]string) {
 	concReplay(rng.Fork(), n, out)
+	concReplayRotation(rng.Fork(), n, out)
 	concCipherList(rng.Fork(), n, out)
 	concSalts(rng.Fork(), n, out)
 	concNatTable(rng.Fork(), n, out)
@@ -225,6 +226,59 @@ func concReplay(r *Rng, n int, out *Out) {
 	}
 	out.Op(fmt.Sprintf("conc replay rounds=%d", 3*rounds), fmt.Sprintf("rounds-with-exactly-one-winner=%d", 3*rounds-bad))
 	out.Stat("conc.replay.rounds", 3*rounds)
+}
+
+// a replay racing the rotation: the active set is exactly full with the victim in it; replays of the victim arrive
+// together with ONE never-seen handshake, whose Add rotates the generations.  Only one other handshake came in between,
+// so every replay must be refused (history 4) — a lookup in the archive made before the lock is taken misses the
+// victim the rotation is about to move there.
+func concReplayRotation(r *Rng, n int, out *Out) {
+	const capacity = 4
+	trials := n * 1500
+	prev := runtime.GOMAXPROCS(0)
+	if prev < 4 {
+		runtime.GOMAXPROCS(4)
+		defer runtime.GOMAXPROCS(prev)
+	}
+	bad := 0
+	for t := 0; t < trials && bad < 3; t++ {
+		rc := service.NewReplayCache(capacity)
+		for i := 0; i < capacity-1; i++ {
+			rc.Add("key", r.Bytes(32))
+		}
+		victim := r.Bytes(32)
+		rc.Add("key", victim)
+		fresh := r.Bytes(32)
+		const replays = 6
+		var accepted int32
+		wait, release := barrier(replays + 1)
+		var wg sync.WaitGroup
+		for c := 0; c < replays; c++ {
+			wg.Add(1)
+			go func() {
+				defer wg.Done()
+				wait()
+				if rc.Add("key", victim) {
+					atomic.AddInt32(&accepted, 1)
+				}
+			}()
+		}
+		wg.Add(1)
+		go func() {
+			defer wg.Done()
+			wait()
+			rc.Add("key", fresh)
+		}()
+		release()
+		wg.Wait()
+		if accepted != 0 {
+			bad++
+			out.Oracle("C07", "a replay of a handshake accepted 1 handshake ago was ACCEPTED (history %d): %d of %d replays racing the Add that rotates the generations got through (trial %d)", capacity, accepted, replays, t)
+			out.Oracle("C19", "ReplayCache.Add is not atomic: a replay racing the rotating Add was accepted")
+		}
+	}
+	out.Op(fmt.Sprintf("conc replay-rotation trials=%d", trials), fmt.Sprintf("replays-accepted=%d", bad))
+	out.Stat("conc.replay.rotation-trials", trials)
 }
 
 // lookups (snapshot + mark used) against key-list replacements: every snapshot must be a list of
